@@ -12,11 +12,11 @@ from cnl2asp.cnl2asp import Cnl2asp  # noqa: E402
 from cnl2asp.utility.utility import Utility  # noqa: E402
 
 
-def call(api, text):
+def call(api, text, obj=None):
     out = io.StringIO()
     try:
         with contextlib.redirect_stdout(out):
-            c = Cnl2asp(text)
+            c = obj if obj is not None else Cnl2asp(text)
             if api == 'compile':
                 r = c.compile()
             elif api == 'compile_nolink':
@@ -42,8 +42,17 @@ def main():
     job = json.load(sys.stdin)
     Utility.PRINT_WITH_FUNCTIONS = bool(job.get('with_functions'))
     res = None
-    for api, text in job['calls']:
-        res = call(api, text)
+    objs = [None] * len(job['calls'])
+    if job.get('construct_first'):
+        # every object exists before the first call is made (the constructor must not be where state is reset)
+        for i, (api, text) in enumerate(job['calls']):
+            try:
+                with contextlib.redirect_stdout(io.StringIO()):
+                    objs[i] = Cnl2asp(text)
+            except Exception:
+                objs[i] = None
+    for i, (api, text) in enumerate(job['calls']):
+        res = call(api, text, objs[i])
     print(json.dumps(res))
 
 
